@@ -186,7 +186,7 @@ def declarative_case(draw):
     unit = draw(st.sampled_from([3, 7, 2, 4]))
     n = draw(st.integers(3, 8))
     names = draw(st.lists(gen.label.filter(lambda x: x not in ('', '0', 'GND')), min_size=n + 3, max_size=n + 3, unique=True))
-    w0 = draw(st.sampled_from([1.0, 50.0, 1000.0]))
+    w0 = draw(st.sampled_from([1.0, 50.0, 1000.0, 314.1592653589793, 2.5]))
     elements, named, used_ground = [], [], False
     pos, ends = (0, 0), {}
     occupied = set()
